@@ -227,6 +227,43 @@ func (g *Gen) applyContract(ct *Contract, names []string, args []*Val, sig *type
 	g.eng.ghostCallEffect(g, ct, env)
 	// results
 	res := g.havocVal(resT, "r_"+sanitize(shortKey(ct.Key)))
+	// results the contract declares fresh (top-level conjunct fresh(result..)) start at offset 0: written literally so
+	// that quantified facts about their elements have arithmetic-free triggers
+	{
+		freshNames := map[string]bool{}
+		var conj func(e *Expr)
+		conj = func(e *Expr) {
+			if e.Op == "bin" && e.Tok == "&&" {
+				conj(e.Args[0])
+				conj(e.Args[1])
+				return
+			}
+			if e.Op == "call" && e.Args[0].Op == "id" && e.Args[0].Tok == "fresh" && len(e.Args) == 2 && e.Args[1].Op == "id" {
+				freshNames[e.Args[1].Tok] = true
+			}
+		}
+		for _, c := range ct.Ensures {
+			conj(c.E)
+		}
+		zero := func(v *Val) {
+			if v != nil && (v.Sort == "Slice" || v.Sort == "Ptr") && len(v.S) >= 2 {
+				v.S[1] = "0"
+			}
+		}
+		if res.Tuple != nil {
+			for i, t := range res.Tuple {
+				n := sig.Results().At(i).Name()
+				if freshNames[fmt.Sprintf("result%d", i)] || (n != "" && freshNames[n]) {
+					zero(t)
+				}
+			}
+		} else if sig.Results().Len() == 1 {
+			n := sig.Results().At(0).Name()
+			if freshNames["result"] || freshNames["result0"] || (n != "" && freshNames[n]) {
+				zero(res)
+			}
+		}
+	}
 	g.assume(g.wellFormedResult(res))
 	post := env.clone()
 	post.goal = false
